@@ -8,13 +8,14 @@ from vf.runner import Ob, ObResult, enc
 CLAIM = (
     "C14 (mechanisms): Watcher.record_change folds any sequence of up to four events into disjoint "
     "updated/deleted sets that reflect the last relevant event per path; a removed directory "
-    "reports every recorded glob match beneath it."
+    "reports every recorded glob match beneath it; a requested directory with missing levels is recorded level by "
+    "level, its nearest existing ancestor is watched, and when the levels appear it is watched and its files reported."
 )
 OUTSIDE = [
-    "inotify delivery, pending watches, directory moves, events lost between phases",
+    "inotify delivery by the kernel, directory moves, events lost between phases, absolute or '..' directories handed to the wrapper",
     "that watch and restart apply the same graph transition (update_file_hashes with cause EXTERNAL): E-SQL obligations of C01",
 ]
-ASSUMPTIONS = ["Workflow.change_is_relevant is an arbitrary per-path constant during the sequence", "glob patterns and recorded files are drawn from fixed pools (harness/c14.py)"]
+ASSUMPTIONS = ["O14.6: the file system is a chain a/b/c/d of which a symbolic number of levels exists; Inotify, path.Path file-system calls and iter_until_stopped are stubs (harness/c14.py pending_dirs); a live watch is only assumed on an existing level", "Workflow.change_is_relevant is an arbitrary per-path constant during the sequence", "glob patterns and recorded files are drawn from fixed pools (harness/c14.py)"]
 
 
 def _mk(oid, cond, pre_q, pre_t, what, tq=300, tt=1500):
@@ -33,8 +34,26 @@ def _mk(oid, cond, pre_q, pre_t, what, tq=300, tt=1500):
     return fn
 
 
+def _mk6():
+    pre_t = "1 <= n <= 4 and 0 <= e <= n and 0 <= w0 <= 2 and 0 <= w1 <= 2 and 0 <= w2 <= 2 and 0 <= w3 <= 2 and 0 <= wroot <= 2 and (w0 < 2 or e >= 1) and (w1 < 2 or e >= 2) and (w2 < 2 or e >= 3) and (w3 < 2 or e >= 4)"
+
+    def fn(tier):
+        import stepup.core.watcher as w
+
+        res = ObResult()
+        pre = pre_t if tier == "thorough" else pre_t + " and n <= 3 and w3 == 0"
+        res.bounds = pre
+        res.encoded += [enc(w.AsyncInotifyWrapper.dir_loop), enc(w.AsyncInotifyWrapper.change_loop), enc(w.AsyncInotifyWrapper._install_watch)]
+        xh.run_condition(res, "C14", "O14.6", "harness.c14", "pending_dirs", pre, 400 if tier == "quick" else 1200, what="every missing level of a requested directory is recorded; when the levels appear the directory is watched and its file reported")
+        res.nontrivial = 1
+        return res
+
+    return fn
+
+
 EV = " and ".join(f"0 <= k{i} < 3 and 0 <= p{i} < 2" for i in range(4))
 OBLIGATIONS = [
     Ob("O14.1", _mk("O14.1", "fold_events", EV + " and 0 <= n <= 3 and k3 == 0 and p3 == 0", EV + " and 0 <= n <= 4", "event folding: disjoint sets reflecting the last relevant event"), "Watcher.record_change folding", weight=3, timeout={"quick": 900, "thorough": 3600}),
+    Ob("O14.6", _mk6(), "AsyncInotifyWrapper.dir_loop / change_loop: pending watches of missing directories", weight=1),
     Ob("O14.5", _mk("O14.5", "relevant_under", "0 <= di < 6 and 0 <= g0 < 6 and 0 <= g1 < 6 and 0 <= nglobs <= 2", "0 <= di < 6 and 0 <= g0 < 6 and 0 <= g1 < 6 and 0 <= nglobs <= 2", "a removed directory reports exactly the recorded glob matches beneath it"), "relevant_paths_under: recorded glob matches (also C17, C18)", weight=2),
 ]
